@@ -351,7 +351,7 @@ func vfStreamCases(thorough bool) []vfStreamCase {
 }
 
 func TestVerif_remotestream(t *testing.T) {
-	R := verifrt.NewReport("remotestream", "pairs of real systems on loopback TCP, B reached through an in-harness proxy that never drops but re-segments the byte stream (as is / 1-byte writes / PRNG splits / coalesce-everything); bursts of 1..5 000 (thorough 20 000, plus a 26 s steady stream) with payloads 0 B .. 4 MiB-300 (the frame, not the payload, is limited to 4 MiB), 1-8 concurrent senders, traffic in both directions at once, concurrent Asks whose replies must carry the asker's id; "Tell ... Tell; Stop" over an established connection (everything Told before Stop arrives); 2 x 150 fresh sending systems whose 8 goroutines contact the peer for the first time at the same moment; per-(sender) sequence/CRC monitor at the receiving actors (gap with a later message seen = loss; duplicate; reorder; checksum), event observers on both systems (decode failures, dead letters), completion awaited until 5 s without progress, stall-gated. non-trivial+distinct = distinct cases in which >= 2 messages crossed the proxy")
+	R := verifrt.NewReport("remotestream", "pairs of real systems on loopback TCP, B reached through an in-harness proxy that never drops but re-segments the byte stream (as is / 1-byte writes / PRNG splits / coalesce-everything); bursts of 1..5 000 (thorough 20 000, plus a 26 s steady stream) with payloads 0 B .. 4 MiB-300 (the frame, not the payload, is limited to 4 MiB), 1-8 concurrent senders, traffic in both directions at once, concurrent Asks whose replies must carry the asker's id; 'Tell ... Tell; Stop' over an established connection (everything Told before Stop arrives); 2 x 150 fresh sending systems whose 8 goroutines contact the peer for the first time at the same moment; per-(sender) sequence/CRC monitor at the receiving actors (gap with a later message seen = loss; duplicate; reorder; checksum), event observers on both systems (decode failures, dead letters), completion awaited until 5 s without progress, stall-gated. non-trivial+distinct = distinct cases in which >= 2 messages crossed the proxy")
 	defer R.Flush()
 	cases := vfStreamCases(verifrt.Thorough())
 	only := verifrt.EnvInt("VERIF_CASE", -1)
